@@ -115,7 +115,7 @@ def main():
     ap.add_argument("property")
     ap.add_argument("--tier", default=os.environ.get("VERIF_TIER", "quick"))
     ap.add_argument("--only", action="append")
-    ap.add_argument("--jobs", type=int, default=int(os.environ.get("BSVERIF_JOBS", "6")))
+    ap.add_argument("--jobs", type=int, default=int(os.environ.get("BSVERIF_JOBS", "8")))
     ap.add_argument("--no-evidence", action="store_true")
     ap.add_argument("--replay")
     ap.add_argument("--build-only", action="store_true")
